@@ -9,6 +9,7 @@ package db
 import (
 	"errors"
 	"fmt"
+	"math"
 	"strconv"
 	"strings"
 
@@ -487,12 +488,15 @@ func defaultWithAffinity(typ string, v interface{}) interface{} {
 // integers become floats.
 func numericAffinity(v interface{}, real bool) interface{} {
 	if s, ok := v.(string); ok {
-		if n, err := strconv.ParseInt(strings.TrimSpace(s), 10, 64); err == nil {
-			v = n
-		} else if f, err := strconv.ParseFloat(strings.TrimSpace(s), 64); err == nil {
-			v = f
-		} else {
+		s = strings.Trim(s, " \t\n\f\r")
+		if !looksLikeNumber(s) {
 			return v
+		}
+		if n, err := strconv.ParseInt(s, 10, 64); err == nil {
+			v = n
+		} else {
+			// +-Inf for a number too big for a float
+			v, _ = strconv.ParseFloat(s, 64)
 		}
 	}
 	switch n := v.(type) {
@@ -501,11 +505,46 @@ func numericAffinity(v interface{}, real bool) interface{} {
 			return float64(n)
 		}
 	case float64:
-		if i := int64(n); !real && float64(i) == n && i > -1<<51 && i < 1<<51 {
+		if i := int64(n); !real && float64(i) == n && i > math.MinInt64 && i < math.MaxInt64 {
 			return i
 		}
 	}
 	return v
+}
+
+// SQLite's idea of a number in a text: digits with an optional sign, fraction
+// and exponent. No hex, no `Inf`, no `NaN`, no digit separators.
+func looksLikeNumber(s string) bool {
+	i := 0
+	digits := func() int {
+		n := 0
+		for i < len(s) && s[i] >= '0' && s[i] <= '9' {
+			i++
+			n++
+		}
+		return n
+	}
+	if i < len(s) && (s[i] == '+' || s[i] == '-') {
+		i++
+	}
+	n := digits()
+	if i < len(s) && s[i] == '.' {
+		i++
+		n += digits()
+	}
+	if n == 0 {
+		return false
+	}
+	if i < len(s) && (s[i] == 'e' || s[i] == 'E') {
+		i++
+		if i < len(s) && (s[i] == '+' || s[i] == '-') {
+			i++
+		}
+		if digits() == 0 {
+			return false
+		}
+	}
+	return i == len(s)
 }
 
 // SQLite compares identifiers (table, column and index names, type names)
